@@ -21,10 +21,10 @@
 (* pair <<wid, n>>: wid = unique id of the insert / load that created it,  *)
 (* n = number of successful compute steps applied since.  <<0,0>> = none.  *)
 (***************************************************************************)
-EXTENDS Integers, Sequences, FiniteSets, TLC
+EXTENDS Integers, Sequences, FiniteSets, TLC, Functions
 
 VARIABLES
-  cfg,   \* [keys, cap (0 = unbounded), ttl, tti, grace, tick (0 = none), kf]
+  cfg,   \* [keys, cap (0 = unbounded), ttl, tti, grace, tick (0 = no timer wheel), policy, kf]
   live,  \* [1..cfg.keys -> entry]  resident entries, NoE = not resident
   now,   \* virtual time
   aux    \* bookkeeping for the guards of the deviation actions (known findings)
@@ -54,11 +54,13 @@ PossExp(e, t) == \/ e.exp > 0 /\ t >= e.exp
 NewEntry(w, c, ttl, t) ==
   [wid |-> w, n |-> 0, cost |-> c,
    exp |-> IF ttl > 0 THEN t + ttl ELSE IF cfg.ttl > 0 THEN t + cfg.ttl ELSE 0,
-   lmin |-> t, lmax |-> t]
+   lmin |-> IF cfg.tti > 0 THEN t ELSE 0, lmax |-> IF cfg.tti > 0 THEN t ELSE 0]
 
-Refresh(L, k, t) == [L EXCEPT ![k].lmin = t, ![k].lmax = t]
-MayRefresh(L, k, t) == [L EXCEPT ![k].lmax = t]
-MayRefreshAll(L, S, t) == [k \in DOMAIN L |-> IF k \in S THEN [L[k] EXCEPT !.lmax = t] ELSE L[k]]
+\* (the access times only matter with an idle timeout; they stay 0 without one)
+Refresh(L, k, t) == IF cfg.tti > 0 THEN [L EXCEPT ![k].lmin = t, ![k].lmax = t] ELSE L
+MayRefresh(L, k, t) == IF cfg.tti > 0 THEN [L EXCEPT ![k].lmax = t] ELSE L
+MayRefreshAll(L, S, t) ==
+  IF cfg.tti > 0 THEN [k \in DOMAIN L |-> IF k \in S THEN [L[k] EXCEPT !.lmax = t] ELSE L[k]] ELSE L
 
 (* ---- reads (C11 ReadsLatest, C12 NoExpired / NoPrematureMiss) -------------- *)
 \* A read may return the value of the resident entry, never at or after its expiry.
@@ -89,7 +91,7 @@ MultiGet(L, r, t) ==
   IN IF /\ Distinct(r.res) /\ got \subseteq asked
         /\ \A i \in 1..Len(r.res) : HitOK(L, r.res[i][1], <<r.res[i][2], r.res[i][3]>>, t)
         /\ \A k \in asked \ got : MissOK(L, k, t)
-       THEN {Out([k \in DOMAIN L |-> IF k \in got THEN [L[k] EXCEPT !.lmin = t, !.lmax = t] ELSE L[k]])}
+       THEN {Out(IF cfg.tti > 0 THEN [k \in DOMAIN L |-> IF k \in got THEN [L[k] EXCEPT !.lmin = t, !.lmax = t] ELSE L[k]] ELSE L)}
        ELSE {}
 
 (* ---- writes ------------------------------------------------------------------ *)
@@ -138,8 +140,8 @@ Compute(L, r, t) ==
   LET k == r.key IN
   CASE r.res = "ok" ->
          IF Present(L, k) /\ (r.hasval => r.val = <<L[k].wid, L[k].n + 1>>)
-           THEN IF ~CertExp(L[k], t) THEN {Out([L EXCEPT ![k].n = @ + 1, ![k].lmax = t])}
-                ELSE IF Dev("FC1") THEN {OutD([L EXCEPT ![k].n = @ + 1, ![k].lmax = t], "FC1")} ELSE {}
+           THEN IF ~CertExp(L[k], t) THEN {Out(MayRefresh([L EXCEPT ![k].n = @ + 1], k, t))}
+                ELSE IF Dev("FC1") THEN {OutD(MayRefresh([L EXCEPT ![k].n = @ + 1], k, t), "FC1")} ELSE {}
            ELSE {}
     [] r.res = "nf" -> IF MissOK(L, k, t) THEN {Out(L)} ELSE {}
     [] r.res = "fail" -> {Out(L)}
@@ -221,7 +223,8 @@ RestoredLive(L, after, t) ==
   [k \in DOMAIN L |->
      IF k \in KeysOf(after)
        THEN LET y == after[ItemFor(after, k)] IN
-            [wid |-> y[2], n |-> y[3], cost |-> y[4], exp |-> IF y[5] >= 0 THEN t + y[5] ELSE 0, lmin |-> t, lmax |-> t]
+            [wid |-> y[2], n |-> y[3], cost |-> y[4], exp |-> IF y[5] >= 0 THEN t + y[5] ELSE 0,
+             lmin |-> IF cfg.tti > 0 THEN t ELSE 0, lmax |-> IF cfg.tti > 0 THEN t ELSE 0]
        ELSE NoE]
 Restore(L, r, t) ==
   IF SnapOK(L, r.entries, t - r.wait) /\ r.cap = cfg.cap /\ RestoredOK(r.entries, r.after)
@@ -240,19 +243,25 @@ NoteStrict(L, x, t) ==
   /\ x[1] \in DOMAIN L /\ Present(L, x[1]) /\ x[2] = L[x[1]].wid /\ x[3] = L[x[1]].n
   /\ \/ x[4] = "Capacity" /\ Bounded
      \/ x[4] = "Expired" /\ PossExp(L[x[1]], t)
-NoteF15(L, x, t) ==
-  /\ Dev("F15") /\ aux.ahead
+NoteF15(L, x, t, a) ==
+  /\ Dev("F15") /\ a.ahead
   /\ x[1] \in DOMAIN L /\ Present(L, x[1]) /\ x[2] = L[x[1]].wid /\ x[3] = L[x[1]].n
   /\ x[4] = "Expired" /\ L[x[1]].exp > 0
-NoteOK(L, x, t) == NoteStrict(L, x, t) \/ NoteF15(L, x, t)
-NoteDevs(L, x, t) == IF NoteStrict(L, x, t) THEN {} ELSE {"F15"}
+\* Known finding FC2: clear(), capacity / admission eviction and a loader refresh take an
+\* entry out of the map without cancelling its TTL timer (the wheel is keyed by the key's
+\* hash).  When the key is written again, the stale timer later removes the NEW entry before
+\* its deadline and announces it as Expired.  a.stale = keys that may own a stale timer.
+NoteFC2(L, x, t, a) ==
+  /\ Dev("FC2") /\ x[1] \in a.stale /\ cfg.tick > 0
+  /\ x[1] \in DOMAIN L /\ Present(L, x[1]) /\ x[2] = L[x[1]].wid /\ x[3] = L[x[1]].n
+  /\ x[4] = "Expired"
+NoteOK(L, x, t, a) == NoteStrict(L, x, t) \/ NoteF15(L, x, t, a) \/ NoteFC2(L, x, t, a)
+NoteDevs(L, x, t, a) == IF NoteStrict(L, x, t) THEN {} ELSE IF NoteF15(L, x, t, a) THEN {"F15"} ELSE {"FC2"}
 
 ForgetAll(L, S) == [k \in DOMAIN L |-> IF k \in S THEN NoE ELSE L[k]]
 
 (* ---- cost accounting and capacity (C13) ---------------------------------------- *)
-RECURSIVE SumCost(_, _)
-SumCost(L, k) == IF k = 0 THEN 0 ELSE L[k].cost + SumCost(L, k - 1)
-Resident(L) == SumCost(L, cfg.keys)
+Resident(L) == FoldFunction(LAMBDA e, acc : e.cost + acc, 0, L)
 
 \* Once operations have quiesced the reported cost is the resident cost.
 CostMatches(L, reported) == reported = Resident(L)
